@@ -178,11 +178,10 @@ functions; `Proofs/ProgramBuilt.lean` shows that the chain `litChain src steps` 
 top-level join (at any position; its right-side program join-free) whose steps — including those of the
 join's right side — are any of the builder calls of `Step` EXCEPT
 * `map_batches` / `map_values_batches` with the slice-dependent chunk functions `BatchFn.rev`, `BatchFn.sumall`
-  (partition-dependent by the operator's documented per-partition semantics; `BatchFn.each f` is covered);
-* the `TopK` combiner (`Comb.topK k` in the four combine entry points, `top_k_per_key`): its model is lawful only
-  on well-formed values (`Val.enc`, hence the order `Val.le`, does not separate `cons 1 0` from `cons 1 nil`);
-  `SubNodeOK` quantifies over ALL partitions, so covering it needs an invariant-relative engine simulation
-  — not done here.
+  (partition-dependent by the operator's documented per-partition semantics; `BatchFn.each f` is covered).
+Every combiner of the library is covered, `TopK` included (`Comb.topK k` in the four combine entry points and
+`top_k_per_key`): the pipeline model's TopK is C06's literal model of the real `merge` (extend path +
+two-pointer path) over `Val.le`, which is a total order on ALL values (`Props/C05.lean::lawful_topK`).
 Programs with two or more top-level joins (`stepsNested`: a join fed by a join) and programs whose one
 join has a right side containing a join (`stepsRightNested`) are covered separately: both engines reject
 them with `nestedCoGroup`, so parallel = sequential there too. -/
@@ -288,10 +287,18 @@ example : stepsSupported
     [.map (.add 1), .mapBatches 2 (.each (.mul 2)), .mapSide [1, -2], .keyBy (.kmod 3), .distinctPerKey,
      .join .right [.int 1, .int 2, .int 3] [.keyBy (.kmod 2), .gbk, .combineValuesLifted .minT],
      .unkey, .debugCount, .values, .combineGloballyLifted .count (some 1)] = true := by decide
-/-- NOT covered (the predicate is not trivially true): slice-dependent chunk functions, TopK -/
+/-- TopK in every entry point (`c01.rs` / `c05.rs` generate these, with ties): global with a fan-out, per
+    key, lifted after a grouping, `top_k_per_key`, and on the right side of a join -/
+example : stepsSupported [.values, .combineGlobally (.topK 2) (some 3)] = true := by decide
+example : stepsSupported [.topKPerKey 2] = true := by decide
+example : stepsSupported [.gbk, .combineValuesLifted (.topK 3), .ungroup, .values,
+    .combineGloballyLifted (.topK 0) none] = true := by decide
+example : stepsSupported [.join .inner [.pair (.int 1) (.int 7)] [.topKPerKey 1, .ungroup], .combineValues (.topK 2)]
+    = true := by decide
+/-- NOT covered (the predicate is not trivially true): slice-dependent chunk functions, a join inside a join side -/
 example : stepsSupported [.mapBatches 2 .rev] = false := by decide
-example : stepsSupported [.values, .combineGlobally (.topK 2) (some 3)] = false := by decide
-example : stepsSupported [.topKPerKey 2] = false := by decide
+example : stepsSupported [.mapValuesBatches 3 .sumall, .topKPerKey 2] = false := by decide
+example : stepsSupported [.join .inner [] [.join .left [] []]] = false := by decide
 /-- `a.join(b).join(c)` is the nested class; a join whose right side is a join result the right-nested one -/
 example : stepsNested [.join .inner [] [], .mapValues .neg, .join .left [] []] = true := by decide
 example : stepsRightNested [.mapValues .neg, .join .left [] [.join .inner [] [], .unkey], .combineValues (.topK 1)]
@@ -339,9 +346,8 @@ theorem program_combineGlobally_value_par (src : List Val) (pre : List Step) (c 
         pure [c.toCombiner.finish (c.toCombiner.foldAdd c.toCombiner.create rows)]) := by
   rw [C01_program src _ h n, program_combineGlobally_value]
 
-/-- C05 (global, lifted entry point): the same single row, for the combiners proved lawful -/
-theorem program_combineGloballyLifted_value (src : List Val) (pre : List Step) (c : Comb) (fo : Option Nat)
-    (hc : c.supported = true) :
+/-- C05 (global, lifted entry point): the same single row, for every combiner (`TopK` included) -/
+theorem program_combineGloballyLifted_value (src : List Val) (pre : List Step) (c : Comb) (fo : Option Nat) :
     runSeq src (pre ++ [.combineGloballyLifted c fo]) =
       (runSeq src pre >>= fun rows =>
         pure [c.toCombiner.finish (c.toCombiner.foldAdd c.toCombiner.create rows)]) := by
@@ -353,7 +359,7 @@ theorem program_combineGloballyLifted_value (src : List Val) (pre : List Step) (
   congr 1
   funext rows
   rw [seqFold_conv_tail]
-  exact cg_lifted_seq_value (Comb.lawful c hc) fo rows
+  exact cg_lifted_seq_value (Comb.lawful c) fo rows
 
 /-- C05 (per key): `pre ; combine_values(c)` returns what the combine's closures return on the rows of
     `pre` — for every program and every combiner -/
@@ -375,7 +381,7 @@ theorem program_combineValues_value (src : List Val) (pre : List Step) (c : Comb
     holding `finish (foldAdd create [v | (k, v) ∈ rows])` — sequentially, and in parallel for EVERY partition
     count when the program is covered -/
 theorem program_combineValues_spec (src : List Val) (pre : List Step) (c : Comb) (rows : List Val)
-    (hc : c.supported = true) (hpre : runSeq src pre = .ok rows) :
+    (hpre : runSeq src pre = .ok rows) :
     ∃ out, runSeq src (pre ++ [.combineValues c]) = .ok out ∧
       (stepsSupported (pre ++ [.combineValues c]) = true →
         ∀ n, runPar src (pre ++ [.combineValues c]) n = .ok out) ∧
@@ -390,7 +396,7 @@ theorem program_combineValues_spec (src : List Val) (pre : List Step) (c : Comb)
     rw [program_combineValues_value, hpre]; rfl
   refine ⟨_, hseq, fun hs n => by rw [C01_program src _ hs n, hseq], cv_keys_nodup _ _, ?_⟩
   intro k
-  exact cv_seq_value (Comb.lawful c hc) rows k
+  exact cv_seq_value (Comb.lawful c) rows k
 
 /-- C04: `pre ; group_by_key` returns the grouping closures' result on the rows of `pre` — for every program;
     `gbk_seq_keys_nodup / _keys_exact / _values / _flatten_perm` (Props/C04) describe it -/
@@ -424,9 +430,47 @@ example : ∃ out,
     (∀ n, runPar [.int 1, .int 2, .int 3] ([.keyBy (.kmod 2)] ++ [.combineValues .sum]) n = .ok out) ∧
     lookupKV (decAccs out) (.int 1) = Option.some (.int 4) := by
   obtain ⟨out, h1, h2, _, h4⟩ := program_combineValues_spec [.int 1, .int 2, .int 3] [.keyBy (.kmod 2)] .sum
-    [.pair (.int 1) (.int 1), .pair (.int 0) (.int 2), .pair (.int 1) (.int 3)] rfl rfl
+    [.pair (.int 1) (.int 1), .pair (.int 0) (.int 2), .pair (.int 1) (.int 3)] rfl
   exact ⟨out, h1, h2 (by decide), by rw [h4]; decide⟩
-example : Comb.maxT.supported = true ∧ Comb.distinctSet.supported = true := ⟨rfl, rfl⟩
+
+/-- **`top_k_per_key(k)` at program level.** After ANY program `pre` that returns `rows`: one output row per
+    distinct key, holding the `k` largest of that key's values in descending order (`Val.le`; ties between
+    values of equal `toInt` by the structural order) — sequentially, and in parallel for EVERY partition count
+    when the program is covered -/
+theorem program_topKPerKey_spec (src : List Val) (pre : List Step) (k : Nat) (rows : List Val)
+    (hpre : runSeq src pre = .ok rows) :
+    ∃ out, runSeq src (pre ++ [.topKPerKey k]) = .ok out ∧
+      (stepsSupported (pre ++ [.topKPerKey k]) = true →
+        ∀ n, runPar src (pre ++ [.topKPerKey k]) n = .ok out) ∧
+      (out.map Val.key).Nodup ∧
+      ∀ key, lookupKV (decAccs out) key =
+        if key ∈ rows.map Val.key
+        then Option.some (Val.ofList
+          ((((rows.filter (fun r => r.key == key)).map Val.value).mergeSort (fun a b => Val.le b a)).take k))
+        else Option.none := by
+  have hval : runSeq src (pre ++ [.topKPerKey k]) =
+      (runSeq src pre >>= fun rows =>
+        pure (combineMerge (Comb.topK k).toCombiner [combineLocalPairs (Comb.topK k).toCombiner rows])) := by
+    rw [runSeq_snoc_barrier src pre (.topKPerKey k) rfl (combineValuesNode (Comb.topK k).toCombiner) []
+      (by simp only [Step.apply]; rfl)
+      (by intro ops h; cases h) (by intro lp lg m h; cases h)
+      (by intro l m lp lg mm r h; have := (List.cons.inj h).1; cases this) rfl]
+    congr 1
+  have hseq : runSeq src (pre ++ [.topKPerKey k])
+      = .ok (combineMerge (Comb.topK k).toCombiner [combineLocalPairs (Comb.topK k).toCombiner rows]) := by
+    rw [hval, hpre]; rfl
+  refine ⟨_, hseq, fun hs n => by rw [C01_program src _ hs n, hseq], cv_keys_nodup _ _, ?_⟩
+  intro key
+  rw [cv_seq_value (lawful_topK k) rows key, topK_value]
+
+/-- the theorem applied: `key_by(x % 2) ; top_k_per_key(2)` on `[1,2,3,5]` gives key 1 ↦ `[5, 3]` for every
+    partition count (the statement's right-hand side is computed by the theorem, not by evaluation) -/
+example : ∃ out,
+    runSeq [.int 1, .int 2, .int 3, .int 5] ([.keyBy (.kmod 2)] ++ [.topKPerKey 2]) = .ok out ∧
+    (∀ n, runPar [.int 1, .int 2, .int 3, .int 5] ([.keyBy (.kmod 2)] ++ [.topKPerKey 2]) n = .ok out) := by
+  obtain ⟨out, h1, h2, _, _⟩ := program_topKPerKey_spec [.int 1, .int 2, .int 3, .int 5] [.keyBy (.kmod 2)] 2
+    [.pair (.int 1) (.int 1), .pair (.int 0) (.int 2), .pair (.int 1) (.int 3), .pair (.int 1) (.int 5)] rfl
+  exact ⟨out, h1, h2 (by decide)⟩
 
 end IB
 
